@@ -26,6 +26,8 @@ DEFAULTS = dict(
     p_scaled_copy=0.0,   # append components y = s*x (s a scalar, possibly negative) fed by a state and make both
                          # responses: their reverse-mode right-hand sides are (anti-)parallel
     p_rhs_checking=0.0,  # DirectSolver / ScipyKrylov get rhs_checking=True (linear-solution caching in rev mode)
+    p_const_partials=0.0,  # per component: purely linear blocks are declared as constant partials (val=, never re-set)
+    p_assembled_iter=0.0,  # ScipyKrylov gets assemble_jac=True (dense / csc / csr; block solvers do not support it)
     max_size=6,
     solver_mix='any',    # 'any' | 'runonce' (acyclic + default solvers)
     offset_units=True,
@@ -288,6 +290,8 @@ def gen_spec(rng, opts=None):
         matfree = rng.random() < o['p_matfree']
         if matfree:
             c['matfree'] = True
+        elif o['p_const_partials'] > 0 and rng.random() < o['p_const_partials']:
+            c['const_partials'] = True
         for oo in c['outputs']:
             m = int(np.prod(oo['shape']))
             t = {'c': np.round(rng_uniform(rng, (m,), -1, 1), 3).tolist(), 'A': {}, 'B': {}}
@@ -640,6 +644,10 @@ def _gen_solvers(rng, spec, o):
             if ln == 'direct':
                 lno['assemble_jac'] = (rng.random() < 0.7) and not has_matfree
                 lno['jac_type'] = rng.choice(['dense', 'csc'])
+            if o['p_assembled_iter'] > 0 and ln == 'krylov' and not has_matfree and \
+                    rng.random() < o['p_assembled_iter']:
+                lno['assemble_jac'] = True
+                lno['jac_type'] = rng.choice(['csr', 'csr', 'csc', 'dense'])
             if o['p_rhs_checking'] > 0 and ln in ('direct', 'krylov', 'krylov+lnbgs') and \
                     rng.random() < o['p_rhs_checking']:
                 lno['rhs_checking'] = {'max_cache_entries': rng.choice([3, 40, 400])}
@@ -733,7 +741,8 @@ def _ln(om, s):
         return om.LinearBlockJac(**kw)
     if t == 'krylov':
         return om.ScipyKrylov(iprint=-1, err_on_non_converge=False, atol=1e-14, rtol=1e-14, maxiter=500,
-                              rhs_checking=s.get('rhs_checking', False))
+                              rhs_checking=s.get('rhs_checking', False),
+                              assemble_jac=bool(s.get('assemble_jac', False)))
     if t == 'krylov+lnbgs':
         k = om.ScipyKrylov(iprint=-1, err_on_non_converge=False, atol=1e-14, rtol=1e-14, maxiter=500,
                            rhs_checking=s.get('rhs_checking', False))
@@ -833,7 +842,7 @@ def build(spec, hook=None, problem_kwargs=None, comp_factory=None):
         if 'nl' in node:
             group.nonlinear_solver = _nl(om, node['nl'])
             group.linear_solver = _ln(om, node['ln'])
-            if node['ln'].get('type') == 'direct' and node['ln'].get('assemble_jac'):
+            if node['ln'].get('assemble_jac'):
                 group.options['assembled_jac_type'] = node['ln'].get('jac_type', 'csc')
 
     fill(prob.model, spec['tree'], 0, ())
